@@ -164,11 +164,14 @@ impl Prop for C13 {
         };
         let crop = !big && rng.chance(1, 4);
         let (w, h, window) = if crop {
-            let top = rng.range(0, 4);
-            let left = rng.range(0, 4);
+            // one crop in three is a small window of a much larger buffer (what decides sampling is
+            // the window, not the allocation behind it)
+            let margin = if rng.chance(1, 3) { 60 } else { 4 };
+            let top = rng.range(0, margin);
+            let left = rng.range(0, margin);
             (
-                iw + left + rng.range(0, 4),
-                ih + top + rng.range(0, 4),
+                iw + left + rng.range(0, margin),
+                ih + top + rng.range(0, margin),
                 Some((top, top + ih, left, left + iw)),
             )
         } else {
